@@ -2020,6 +2020,42 @@ Proof.
   - apply do_read_signals.
 Qed.
 
+(** *** removing an attached replica drops its registration *)
+Lemma remove_replica_unregisters : forall s fs a, struct_ok s -> has_replica s a = true ->
+  ~ In a (keys (registered (remove_replica_nolock s fs a))).
+Proof.
+  intros s fs a H Ha. unfold remove_replica_nolock. rewrite Ha. cbn [negb].
+  set (s1 := if Nat.eqb (length (replicas s)) 1 && fe_up s then _ else s).
+  assert (R1 : registered s1 = registered s) by (subst s1; destruct (Nat.eqb (length (replicas s)) 1 && fe_up s); reflexivity).
+  set (s2 := upd_registered s1 (adel (registered s1) a)).
+  cbv zeta.
+  assert (RS : reg_sub s2 (update_checkpoint (update_vol_status (remove_backend (upd_replicas s2 (adel (replicas s2) a)) a)) fs)).
+  { eapply rs_trans; [|apply rs_update_checkpoint]. eapply rs_trans; [|apply rs_uvs].
+    eapply rs_trans; [|apply rs_remove_backend]. apply rs_upd_replicas. }
+  intro Hin. apply in_keys_inv in Hin. destruct Hin as [r Hr]. apply (proj2 RS) in Hr.
+  unfold s2 in Hr. cbn [registered upd_registered] in Hr.
+  apply in_keys in Hr. revert Hr. apply adel_not_in. rewrite R1. exact (st_reg s H).
+Qed.
+
+Lemma c09_removed_unregistered : forall s e, struct_ok s ->
+  match e with
+  | Remove a _ | MonFire a _ | MonFail a _ =>
+      snd (fst (step s e)) = ROk -> In a (keys (replicas s)) -> ~ In a (keys (registered (fst (fst (step s e)))))
+  | _ => True
+  end.
+Proof.
+  intros s e H. destruct e; try exact I; cbn [step].
+  - cbn [fst snd]. intros _ Ha. apply remove_replica_unregisters; [exact H|apply has_replica_in; exact Ha].
+  - unfold do_mon_fire. destruct (first_for (pend_mon s) (Nat.eqb a)) as [[i y]|]; cbn [fst snd]; [|discriminate].
+    intros _ Ha. apply remove_replica_unregisters.
+    + eapply sst_struct; [apply sst_upd_mon|exact H].
+    + apply has_replica_in. exact Ha.
+  - unfold do_mon_fail. destruct (first_for (rev (live_mon s)) (Nat.eqb a)) as [[i y]|]; cbn [fst snd]; [|discriminate].
+    intros _ Ha. apply remove_replica_unregisters.
+    + apply struct_set_mode; [discriminate|]. eapply sst_struct; [apply sst_upd_mon|exact H].
+    + apply has_replica_in. rewrite keys_set_mode. exact Ha.
+Qed.
+
 Lemma c09_step_model : forall rf0 n g s e r0 ef0 r0',
   struct_ok s -> rf s = rf0 -> keys_lt n s -> reg_inv g s ->
   ev_wf e = true -> ev_addrs_lt n e = true -> reg_consistent g e = true ->
@@ -2030,9 +2066,23 @@ Proof.
   assert (Other : (match e with Register _ _ _ _ _ _ | Start _ _ => False | _ => True end) ->
             Nat.eqb (length (starts_of (observe n (fst (fst (step s e))) (snd (fst (step s e))) (snd (step s e))))) 0 = true).
   { intros He. rewrite no_start_signals; [reflexivity|]. rewrite (other_signals s e He). intros p []. }
+  assert (Gone : forall a, (match e with Remove a' _ | MonFire a' _ | MonFail a' _ => a' = a | _ => False end) ->
+            (if is_ack (observe n (fst (fst (step s e))) (snd (fst (step s e))) (snd (step s e)))
+                && mem a (addrs_of (o_replicas (with_res1 (observe n s r0 ef0) r0')))
+             then negb (mem a (o_registered (observe n (fst (fst (step s e))) (snd (fst (step s e))) (snd (step s e)))))
+             else true) = true).
+  { intros a He. pose proof (c09_removed_unregistered s e H) as G.
+    match goal with |- (if ?c then _ else _) = true => destruct c eqn:E; [|reflexivity] end.
+    apply andb_prop in E. destruct E as [E1 E2]. unfold is_ack in E1. cbn [o_res observe] in E1. apply res_class_ok in E1.
+    cbn [o_replicas observe with_res1] in E2. apply mem_in in E2.
+    apply negb_true_iff. apply mem_false. cbn [o_registered observe]. intro Hin. apply (proj1 (in_sort _ _)) in Hin.
+    destruct e; try contradiction; subst; exact (G E1 E2 Hin). }
   destruct e; try (apply Other; exact I).
   - apply c09_register; assumption.
   - apply c09_start; assumption.
+  - apply andb_true_intro. split; [apply Other; exact I|apply Gone; reflexivity].
+  - apply andb_true_intro. split; [apply Other; exact I|apply Gone; reflexivity].
+  - apply andb_true_intro. split; [apply Other; exact I|apply Gone; reflexivity].
 Qed.
 
 (** *** the induction, with the oracle's memory threaded *)
@@ -2124,4 +2174,20 @@ Proof. vm_compute. repeat split; reflexivity. Qed.
 Example c09_conditions_non_vacuous :
   fixed_assign [] c05_witness = true /\ forallb (ev_addrs_lt 1) c05_witness = true /\ forallb ev_wf c05_witness = true
   /\ map o_signals (trace 1 (init 1 []) (map One c05_witness)) = [[(0%nat, true)]; []; []].
+Proof. vm_compute. repeat split; reflexivity. Qed.
+
+(** the remove clause: an attached replica loses its registration when it is removed; removing an
+    address that is not attached is acknowledged and keeps the registration (the guard of the clause) *)
+Definition c09_remove_attached : list event :=
+  [Register 0%nat 1%nat 1 false None []; Start [0%nat] []; Remove 0%nat []].
+Definition c09_remove_unattached : list event :=
+  [Register 0%nat 1%nat 1 false None []; Remove 0%nat []].
+Example c09_remove_clause_reached :
+  walk_g (fun g => lift (c09_step 1 g) nopair) 0 [] (obs0 1 1 []) (map One c09_remove_attached)
+         (trace 1 (init 1 []) (map One c09_remove_attached)) = None
+  /\ map o_registered (trace 1 (init 1 []) (map One c09_remove_attached)) = [[0%nat]; [0%nat]; []]
+  /\ walk_g (fun g => lift (c09_step 1 g) nopair) 0 [] (obs0 1 1 []) (map One c09_remove_unattached)
+         (trace 1 (init 1 []) (map One c09_remove_unattached)) = None
+  /\ map o_registered (trace 1 (init 1 []) (map One c09_remove_unattached)) = [[0%nat]; [0%nat]]
+  /\ map o_res (trace 1 (init 1 []) (map One c09_remove_unattached)) = [ROk; ROk].
 Proof. vm_compute. repeat split; reflexivity. Qed.
